@@ -98,7 +98,11 @@ coap_register_async_lkd(coap_session_t *session,
   }
 
   if (coap_get_data(request, &len, &data)) {
-    coap_add_data(s->pdu, len, data);
+    if (!coap_add_data(s->pdu, len, data)) {
+      coap_free_async_lkd(session, s);
+      coap_log_crit("coap_register_async: insufficient memory\n");
+      return NULL;
+    }
   }
 
   s->session = coap_session_reference_lkd(session);
